@@ -14,7 +14,7 @@ CLAIMED = {
          'Proved for all graphs: closure and minimality of the confirmed-node traversal, exactness of get_non_confirmed_nodes, get_deriving_in_edges, the exact reporting rule of get_confirmed_incompatibility_edges, and the edge/node bookkeeping of get_mod_apply_selection_choice up to its incompatibility step (origin->option edges added, choice node and unselected option edges removed, zero-option marker). Instance = closure, order independence and the feasible-leaf set are contracts on get_for_apply_selection_choice evaluated along all choice orders of the corpus (bounded); the recursive derived-edge walks are assumed callees.',
          NOTE, TECH),
  'C03': ('other',
-         'Clamp, fixed-vector and activeness kernels of the connection encoders are proved (correct_vector_size/bounds, _correct_is_active); canonical-fixed-point and vector-describes-instance clauses are run-time contracts over the full declared space of every corpus graph (bounded).',
+         'Clamp, fixed-vector and activeness kernels of the connection encoders are proved (correct_vector_size/bounds, _correct_is_active); canonical-fixed-point and vector-describes-instance clauses are run-time contracts over the full declared space of every corpus graph (bounded). The corrected vector reported by the connection managers is proved to be the encoder answer with -1 replaced by 0 (get_matrix / get_conn_idx of both managers).',
          NOTE, TECH),
  'C04': ('other',
          'Enumeration = reference architectures (sound, complete, one each), counts and imputation ratio are run-time contracts on get_all_discrete_x / get_n_valid_designs over the corpus with and without one fixed variable (bounded); the scenario-merging numpy code is outside the deductive reach. Also proved: get_imputation_ratio and HierarchyAnalyzerBase.imputation_ratio are the quotient of declared size and valid count (1 when there is no valid design), over uninterpreted counts.',
@@ -26,7 +26,7 @@ CLAIMED = {
          'Proved for all graphs: the confirmed-pair test (get_confirmed_incompatibility_edges), the first half of get_mod_nodes_remove_incompatibilities (which nodes go, when the graph is infeasible) and the upstream search get_incompatibility_deriving_nodes (nothing that necessarily derives the target is missed, nothing else is collected) and get_deriving_in_edges (exactly the in-edges that still derive a node given what was removed). Enforcement, no-over-pruning and infeasible-stays-infeasible are contracts evaluated on every node of the choice tree of the INC corpus (bounded).',
          NOTE, TECH),
  'C07': ('other',
-         'Activeness/imputation kernel (_correct_is_active, inactive canonical value, get_graph tail) proved; agreement between enumeration, create=True/False and corrected raw vectors is a run-time contract over all vectors of the corpus (bounded).',
+         'Activeness/imputation kernel (_correct_is_active, inactive canonical value, get_graph tail) proved; agreement between enumeration, create=True/False and corrected raw vectors is a run-time contract over all vectors of the corpus (bounded). Also proved: on every path through AssignmentManager / LazyAssignmentManager (get_matrix, correct_vector, get_conn_idx) the reported vector and activeness are exactly the (-1 to 0, inactive) conversion of the encoder answer for that vector and existence pattern, so these paths agree with each other (encoder answer uninterpreted).',
          NOTE, TECH),
  'C08': ('other',
          'Every derive/decode operation followed by re-observation of all live graph objects through the public API (bounded); frame clauses of copy/derive functions proved where reached. Proved: the value dicts handed out (des_var_values, metric_values) are fresh objects with the same content, set_metric_value touches one key, ConnectorDegreeGroupingNode.update_deg (call shape of the library) writes only the aggregate fields of that grouping node and no other connector.',
@@ -35,7 +35,7 @@ CLAIMED = {
          'The jit-compiled validity test (_check_conns, _validate_matrix) is proved equivalent to the statement-level definition of a valid connection matrix for all matrices and settings (deductive, unbounded); enumeration, counting and the composed validate_matrix are checked against brute force on enumerated settings (bounded). Also proved: MatrixGenSettings.get_max_conn_parallel (explicit limit at least 1; default at least 2, at least every finite degree, attained).',
          NOTE, TECH),
  'C10': ('other',
-         'Totality/range/fixed-point/onto/listing clauses as run-time contracts for every registry encoder x imputer over the full vector space [-1..n_opts] of enumerated settings (bounded); vector-size and clamp kernels proved.',
+         'Totality/range/fixed-point/onto/listing clauses as run-time contracts for every registry encoder x imputer over the full vector space [-1..n_opts] of enumerated settings (bounded); vector-size and clamp kernels proved. The managers public decode functions (get_matrix, correct_vector, get_conn_idx of both managers) are proved to pass the encoder answer on unchanged apart from the documented -1 conversion, and to report no edges exactly for the constraint-violation marker.',
          NOTE, TECH),
  'C11': ('other',
          'Proved for all inputs: get_mod_apply_connection_choice adds exactly the given connections (parallel ones as keyed edges), removes the choice node and exactly the exclusion / tie edges (with get_excluded_edges and get_deriving_edges under their own contracts); the exclusion-pair remapping per existence pattern; ConnectionChoiceNode.validate_conn_edges (edges counted into the matrix in the connector order of the matrix generator, foreign connectors rejected, verdict = the validity test of the generator, which is proved under C09). Connection sets offered per selection scenario = brute-force valid sets and decoded sets valid for the present connectors are bounded contracts over the CONN corpus. Also proved: update_deg counts exactly the member connectors of this graph (repeat flag via the proved get_repeated_allowed), ConnectorNode.is_valid is the listed-degree / inclusive-range test (open-ended maxima bounded only).',
